@@ -223,7 +223,7 @@ def lift_case(part, emul_helper, sem, X, b, meta, ins):
         part.n += 1
         part.violation('%s rule=%s' % (sigbase, ex.rule), '%s (%s): %s' % (b[:ins.l].hex(), str(ins).strip(), ex), wit, size=len(meta[0]) * 100)
         return
-    part.ok(core.h64(b), outcome=(name, opkinds(ins)))
+    part.ok(core.h64(b), outcome=(name, opkinds(ins)), sample={'bytes': b[:ins.l].hex(), 'instr': str(ins).strip(), 'lifted': [str(e) for e in lst][:4]} if len(part.samples) < 2 else None)
 
 
 def shard(s, ns, tier, seed):
